@@ -573,8 +573,7 @@ def families(ctx):
 
 
 def run(ctx):
-    for name, fn in families(ctx):
-        ctx.guarded(name, fn)
+    ctx.run_families(families(ctx))
     ctx.bounds += ['loop step: one iteration from an arbitrary (havocked) state => every loop length; decision tables: all 2^6 bucket-emptiness states',
                    'replay concretises outcomes as static policies: true/false literal, integer overflow (error), unknown("u") (residual)']
     ctx.assumptions += ['Evaluator::partial_evaluate, Policy::{id,effect,annotations_arc}, Iterator::next over the policy set: environment stubs returning arbitrary values',
